@@ -25,6 +25,7 @@ def loops_after_first_assignment(qualname, var, inv, role_extra=None):
     (read from the current source on every run); role_extra(loop_node, inside_dispatch) -> list"""
     import ast
     from pyvc.contracts import find_function
+    from pyvc.contracts import DynamicLoops
     try:
         fn = find_function(qualname)[1]
     except Exception:
@@ -53,7 +54,7 @@ def loops_after_first_assignment(qualname, var, inv, role_extra=None):
             else:
                 walk(ch, inside, in_handler)
     walk(fn, False)
-    return out
+    return DynamicLoops(out)
 
 
 
@@ -176,7 +177,8 @@ def _sel_loops(qualname):
                 k[0] += 1
             walk(ch)
     walk(fn)
-    return out
+    from pyvc.contracts import DynamicLoops
+    return DynamicLoops(out)
 
 
 contract(
